@@ -844,9 +844,37 @@ def _implicit_nh_full():
             fail("implicit", "non-Hermitian implicit mode with a fully diagonalized explicit block raised", fully_diagonalize=str(fd)[:20], error=repr(e)[:200])
 
 
+def _kpm_accuracy_is_not_a_degeneracy_tolerance():
+    """C06 with the KPM solver: the accuracy requested for the Green's function (solver_options['atol']) must not decide which EXPLICIT energies count as equal.
+    Two explicit levels 5e-4 apart, accuracy 1e-3: the result must still be the explicit one (to that accuracy), in one fully diagonalized block and in two blocks."""
+    global cases
+    n = 8
+    h0 = np.diag([0, 5e-4, 3, 4, 5, 6, 7, 8.0])
+    r = np.random.default_rng(1)
+    M = r.normal(size=(n, n))
+    h1 = (M + M.T) / 2
+    I = np.eye(n)
+    ref1 = np.asarray(block_diagonalize([h0, h1], subspace_eigenvectors=[I[:, :2], I[:, 2:]], fully_diagonalize=[0])[0][0, 0, 2])
+    ref2 = np.asarray(block_diagonalize([h0, h1], subspace_eigenvectors=[I[:, :1], I[:, 1:2], I[:, 2:]])[0][0, 0, 2])
+    for acc in (1e-5, 1e-3):
+        for label, kw, vecs, ref in (("one fully diagonalized block", {"fully_diagonalize": [0]}, [I[:, :2]], ref1), ("two blocks", {}, [I[:, :1], I[:, 1:2]], ref2)):
+            cases += 1
+            try:
+                with warnings.catch_warnings():
+                    warnings.simplefilter("ignore")
+                    got = np.asarray(block_diagonalize([sparse.csr_array(h0), sparse.csr_array(h1)], subspace_eigenvectors=vecs, direct_solver=False,
+                                                       solver_options={"atol": acc}, **kw)[0][0, 0, 2])
+                if np.abs(got - ref).max() > 50 * acc * max(1.0, np.abs(ref).max()):
+                    fail("implicit", "KPM solver: the requested accuracy of the Green's function changes which explicit energies are treated as equal (result far from the explicit one)",
+                         layout=label, accuracy=acc, err=float(np.abs(got - ref).max()), size=float(np.abs(ref).max()))
+            except Exception as ex:  # noqa: BLE001
+                fail("implicit", "KPM solver: a well-posed problem is refused when a coarse accuracy is requested", layout=label, accuracy=acc, error=repr(ex)[:200])
+
+
 def section_implicit():
     global cases
     _implicit_nh_full()
+    _kpm_accuracy_is_not_a_degeneracy_tolerance()
     rng = np.random.default_rng(21)
     N = 3
 
